@@ -193,6 +193,7 @@ def targets : Stmt → List Nat
   | .swap x _ y _ => [x, y]
   | .update y _ _ _ => [y]
   | .callAppend y _ _ => [y]
+  | .appendPop x _ y _ => [x, y]
 
 theorem get_set_ne (σ : Store) (x z : Nat) (t : Tree) (h : z ≠ x) : Store.get (σ.set x t) z = Store.get σ z := by
   simp [Store.get, List.getD, List.getElem?_set_ne (Ne.symm h)]
@@ -205,6 +206,11 @@ theorem spec_extract_others (σ : Store) (φ : Tree → Option (Tree × Tree)) (
     · rfl
     · simp only [get_set_ne _ _ _ _ hy, get_set_ne _ _ _ _ hx]
   · rfl
+
+theorem spec_appendFinish_others (σ : Store) (x z : Nat) (path : List Int) (tl tv : Tree) (hx : z ≠ x) :
+    Store.get (Store.appendFinish σ x path tl tv).1 z = Store.get σ z := by
+  unfold Store.appendFinish
+  split <;> split <;> simp [get_set_ne _ _ _ _ hx]
 
 /-- Spec level: a statement writes only its target variables -/
 theorem spec_others_unchanged (σ : Store) (st : Stmt) (z : Nat) (hz : z ∉ targets st) :
@@ -225,8 +231,7 @@ theorem spec_others_unchanged (σ : Store) (st : Stmt) (z : Nat) (hz : z ∉ tar
     split
     · split
       · rfl
-      · split <;> simp [get_set_ne _ _ _ _ hx]
-      · split <;> simp [get_set_ne _ _ _ _ hx]
+      · exact spec_appendFinish_others σ x z path _ _ hx
     · rfl
   | pop y x path =>
     have h : z ≠ x ∧ z ≠ y := by simpa [targets] using hz
@@ -258,6 +263,16 @@ theorem spec_others_unchanged (σ : Store) (st : Stmt) (z : Nat) (hz : z ∉ tar
     simp only [Store.step]
     split
     · split <;> simp [get_set_ne _ _ _ _ hy]
+    · rfl
+  | appendPop x path y ypath =>
+    have h : z ≠ x ∧ z ≠ y := by simpa [targets] using hz
+    simp only [Store.step]
+    split
+    · split
+      · rfl
+      · split
+        · rfl
+        · rw [spec_appendFinish_others _ x z path _ _ h.1, get_set_ne _ _ _ _ h.2]
     · rfl
 
 theorem cell_rep {s : State} {σ : Store} (R : Refines s σ) (z : Nat) : Rep s.h (cellOf s z) (Store.get σ z) := by
@@ -376,5 +391,17 @@ example : Refines (RcHeap.run (State.init 2) readmeMatrix) (Store.run (Store.Sto
 /-- in-place case (count 1): no allocation is made by `x[0] = 5` on an unshared list -/
 example : (RcHeap.run (State.init 1) [.assign 0 (.list [.int 1, .int 2]), .setIdx 0 [0] (.atom (.int 5))]).h.allocs.length = 1 := by
   decide
+
+/-- order of an operator-assignment whose right-hand side mutates the same variable:
+`x := [1,2,3]; x append= pop x` gives `[1,2,3,3]` — the old left-hand value is read BEFORE the pop
+(reading it after the right-hand side would give `[1,2,3]`).  `step_refines` covers `.appendPop` for all
+paths and alias graphs; this is the concrete instance. -/
+example : (abs (RcHeap.run (State.init 1) [.assign 0 (.list [.int 1, .int 2, .int 3]), .appendPop 0 [] 0 []])).map Tree.render
+    = ["[1,2,3,3]"] := by decide
+
+/-- … and through an alias: `y = x; x append= pop y` gives x = [1,2,3,3], y = [1,2] -/
+example : (abs (RcHeap.run (State.init 2)
+    [.assign 0 (.list [.int 1, .int 2, .int 3]), .assign 1 (.atom (.var 0)), .appendPop 0 [] 1 []])).map Tree.render
+    = ["[1,2,3,3]", "[1,2]"] := by decide
 
 end Noulith.C01
